@@ -1623,7 +1623,7 @@ def t_render( ctx ):
     fe = frac[0].value
     try:
         from .fold import fold as _fold
-        got_ = [ _fold( fe, { VALUE: v_, SUB: 3 } ) for v_ in ( -1.25, -86400.125, 1.25 ) ]
+        got_ = [ _fold( fe, { VALUE: v_, SUB: 3, 'self.value': v_ } ) for v_ in ( -1.25, -86400.125, 1.25 ) ]
         want_ = [ ( '%.3f' % ( v_ % 1.0 ))[-4:] for v_ in ( -1.25, -86400.125, 1.25 ) ]
     except NoFold as exc:
         raise AnalysisError( 'render: fraction expression outside the modelled subset: %s' % str( exc )[:80] )
